@@ -134,7 +134,10 @@ def toNear (cfg : SqlCfg) : Nat → Ops → Option (List String) → M Near
           let weUse := terms.map (·.1)
           let sterms' := sterms'.filter (fun kv => weUse.contains kv.1)
           let sdeps' := sdeps'.filter (fun kv => weUse.contains kv.1)
-          return .unary sname (some sterms') sagg ssub scols .none true (some sdeps') skey
+          -- fix D25: the merged step is re-keyed (it now computes this extend as well)
+          let _ := skey
+          return .unary sname (some sterms') sagg ssub scols .none true (some sdeps')
+            (keyOfNode "extend" n (sterms'.map (·.1)))
         else fallback
       | _, _ => fallback
   | fuel+1, n@(.project src ops group), using? => do
